@@ -60,6 +60,10 @@ def run(ck: Checker, prog: Program, tier: str):
     with ck.borrow(c05, "C11.R2+"):
         ck.guard(S.check_accessor_table, ck, prog, trad, "C05.R3", c05.TABLE, c05.GUARDS)
         ck.guard(S.check_masked_reads, ck, prog, trad, "C05.R1", floor=4)
+    # what is reported for an azimuthal result on file are the azimuthal object's own mean / std curves
+    from . import c12
+    with ck.borrow(c12, "C11.R2+"):
+        ck.guard(c12._r3, ck, prog, prog.func(c12.W), prog.func(c12.R))
 
 
 def _helpers(ck: Checker, prog: Program):
